@@ -88,16 +88,21 @@ def build_parser(shape, *, dcf_patterns=None, default_env=False, exit_on_error=F
     return p
 
 
+def dest_of(key: str) -> str:
+    """the configuration key of an option: dashes of the option name become underscores"""
+    return key.replace("-", "_")
+
+
 def env_name(key: str) -> str:
     # the documented rule [PREFIX_][LEV__]*OPT
-    return "APP_" + key.upper().replace(".", "__")
+    return "APP_" + dest_of(key).upper().replace(".", "__")
 
 
 def cfg_obj(asgs, kinds, dotted: bool) -> dict:
     """assignments of one config -> the mapping a user would write (nested or dotted spelling)"""
     out: dict = {}
     for a in asgs:
-        key, kind = a["key"], kinds[a["key"]]
+        key, kind = dest_of(a["key"]), kinds[a["key"]]
         if a["op"] == "app":
             name, val = key + "+", list(a["v"])
         else:
@@ -233,7 +238,7 @@ def run_source_case(case: dict) -> dict:
         out = {}
         for key, kind, _ in shape:
             try:
-                out[key] = absv(kind, cfg[key])
+                out[key] = absv(kind, cfg[dest_of(key)])
             except Exception:
                 out[key] = [-999999]
         return {"ok": out, "call": call, "env": envmap, "env_how": env_how, "patterns": [os.path.relpath(p, tmp) for p in patterns]}
